@@ -44,3 +44,32 @@ Theorem C02_F1_witness_repaired :
   cert02_run NumQ.NQ conv_Q release 1000 F1_A F1_B Union = true
   /\ cert01_run NumQ.NQ conv_Q release 1000 F1_A F1_B Union = true.
 Proof. exact F1_repaired. Qed.
+
+(** the grouping bookkeeping of [connect_edges.rs] / [mod.rs], every instance, every input,
+    whatever the geometry: a contour's parent is an earlier contour without a parent (holes are
+    never nested in holes), the parent lists it, every listed id is the id of a contour whose
+    parent is the lister, no id is listed twice; hence the returned polygons contain every
+    contour exactly once — as the exterior of its own polygon or as an interior ring of exactly
+    one polygon. *)
+From Coq Require Import ZArith.
+From GB Require Import Connect GroupingProofs.
+Theorem C02_grouping_is_a_partition :
+  forall (N : Num) (all : list (contour N)),
+  ginv N all ->
+  contours_to_polygons all all = Ok (map (poly_of N all) (filter (is_ext N) all))
+  /\ (forall i c, nth_error all i = Some c -> is_ext N c = false ->
+        exists p pc, nth_error all p = Some pc /\ is_ext N pc = true /\ In (Z.of_nat i) (c_hole_ids pc)
+                     /\ forall q qc, nth_error all q = Some qc -> In (Z.of_nat i) (c_hole_ids qc) -> q = p)
+  /\ (forall p pc h, nth_error all p = Some pc -> In h (c_hole_ids pc) ->
+        is_ext N pc = true /\ (0 <= h < Z.of_nat (length all))%Z /\
+        exists hc, nth_error all (Z.to_nat h) = Some hc /\ is_ext N hc = false /\ cpts N all h = c_points hc)
+  /\ (forall p pc, nth_error all p = Some pc -> NoDup (c_hole_ids pc)).
+Proof. exact grouping_partition. Qed.
+
+Theorem C02_every_result_is_such_a_grouping :
+  forall (N : Num) (cfg : config) (fuel : nat) (A B : list (FillQueue.polygon N)) (op : operation)
+         (R : list (FillQueue.polygon N)),
+  boolean_operation cfg fuel A B op = Ok R ->
+  R = trivial_result A B op \/
+  exists cs, ginv N cs /\ R = map (poly_of N cs) (filter (is_ext N) cs).
+Proof. exact boolean_operation_grouping. Qed.
